@@ -45,10 +45,10 @@ HARNESSES = {
 }
 
 
-def setup(kind='F'):
+def setup(kind='F', bufsize=8192):
     """DB with x,y; three more transactions; pack time after the second."""
     import transaction
-    w = dbworld.DBWorld(kind, record=True)
+    w = dbworld.DBWorld(kind, record=True, bufsize=bufsize)
     tm = transaction.TransactionManager()
     c = w.db.open(tm)
     r = c.root()
@@ -123,7 +123,7 @@ class Prog08(dbworld.Prog):
 def run_one(cfg, choices):
     sched.install_locks()
     iolog.READS[0] = True
-    w = setup(cfg.get('kind', 'F'))
+    w = setup(cfg.get('kind', 'F'), cfg.get('bufsize', 8192))
     # the packer proper runs after the request was admitted: two threads
     # inside it at once means a concurrent pack was not refused
     orig_packer = w.storage.packer
@@ -549,6 +549,13 @@ def run(rep, tier, seed, workers):
         b = bound - 1 if three else bound
         plan.append((dict(prop='C08', name=name), b))
         rep.bounds['%s preemptions' % name] = b
+    # buffers smaller than a transaction: read-ahead and partial flushes
+    # matter (the packer must not look at the tail through a buffer)
+    for bs in (64, 96, 160):
+        plan.append((dict(prop='C08', name='pack+writer2', bufsize=bs),
+                     bound))
+    rep.bounds['pack+writer2 with 64 / 96 / 160-byte buffers: '
+               'preemptions'] = bound
     plan.append((dict(prop='C08', name='pack+writer2', crash=1), 1))
     rep.bounds['pack+writer2 x crash images: preemptions'] = 1
     for name in ('pack+reader', 'pack+storage-reader'):
